@@ -74,6 +74,8 @@ type ldProc struct {
 	LivePort      string         `json:"live_port,omitempty"`
 	Namespace     string         `json:"namespace,omitempty"`
 	LaunchTimeout int            `json:"launch_timeout,omitempty"`
+	NameKey       string         `json:"name_key,omitempty"` // a "name:" key inside the process block (the map key is the name)
+	Shadowed      bool           `json:"shadowed,omitempty"` // named like a replica of another process: which one survives is not judged, only that loads agree and the replicas are right
 }
 
 type ldSpec struct {
@@ -122,6 +124,9 @@ func (sp *ldSpec) yaml() string {
 		}
 		if p.Namespace != "" {
 			fmt.Fprintf(&b, "    namespace: %s\n", p.Namespace)
+		}
+		if p.NameKey != "" {
+			fmt.Fprintf(&b, "    name: %s\n", yq(p.NameKey))
 		}
 		if p.LaunchTimeout != 0 {
 			fmt.Fprintf(&b, "    launch_timeout_seconds: %d\n", p.LaunchTimeout)
@@ -178,7 +183,8 @@ func genLdSpec(rng *rand.Rand) ldSpec {
 	if rng.Intn(3) != 0 {
 		sp.Vars = map[string]any{"GV": fmt.Sprintf("g%d", rng.Intn(100)), "GN": rng.Intn(2000000), "SH": "global"}
 	}
-	tpls := []string{"", "plain", "r{{.PC_REPLICA_NUM}}", "x-{{.LV}}-{{.PC_REPLICA_NUM}}", "{{.GV}}/{{.SH}}", "n{{.GN}}", "{{.SH}}-{{.LV}}", "{{if .LV}}has{{end}}{{.PC_REPLICA_NUM}}"}
+	tpls := []string{"", "plain", "r{{.PC_REPLICA_NUM}}", "x-{{.LV}}-{{.PC_REPLICA_NUM}}", "{{.GV}}/{{.SH}}", "n{{.GN}}", "{{.SH}}-{{.LV}}", "{{if .LV}}has{{end}}{{.PC_REPLICA_NUM}}",
+		"{{/* nothing to render */}}", "{{- /* trimmed */ -}}", "{{if .NOPE}}never{{end}}"}
 	pick := func() string { return tpls[rng.Intn(len(tpls))] }
 	n := 1 + rng.Intn(4)
 	for i := 0; i < n; i++ {
@@ -212,7 +218,21 @@ func genLdSpec(rng *rand.Rand) ldSpec {
 		if rng.Intn(4) == 0 {
 			p.LaunchTimeout = []int{-1, 3, 9}[rng.Intn(3)]
 		}
+		if rng.Intn(12) == 0 {
+			p.NameKey = []string{"other", "q0", "q1-0", ""}[rng.Intn(4)]
+		}
 		sp.Procs = append(sp.Procs, p)
+	}
+	for _, p := range sp.Procs {
+		if p.Replicas >= 2 && p.Replicas < 10 && rng.Intn(6) == 0 {
+			sh := ldProc{Name: fmt.Sprintf("%s-%d", p.Name, rng.Intn(p.Replicas)), CmdRest: "shadow r{{.PC_REPLICA_NUM}}", Shadowed: true}
+			if rng.Intn(2) == 0 {
+				// itself replicated: all replica names are distinct, a valid file
+				sh.Replicas, sh.Shadowed = 2+rng.Intn(2), false
+			}
+			sp.Procs = append(sp.Procs, sh)
+			break
+		}
 	}
 	return sp
 }
@@ -249,6 +269,9 @@ func runLoadDet(c fw.Case) fw.Result {
 	r.Count("loads", 5)
 	multi := false
 	for _, ps := range sp.Procs {
+		if ps.Shadowed {
+			continue
+		}
 		n := ps.Replicas
 		if n < 1 {
 			n = 1
@@ -501,7 +524,7 @@ func (f *mgFile) yaml(extends string) string {
 	return b.String()
 }
 
-var hostileVals = []string{"", "v", "a=b", "a=b=c", "http://h/p?x=1&y=2", "with space", " lead", "trail ", "q\"uote", "h#ash", "co:lon", "üñí", "=", "==", "k=v,k2=v2", "-dash", "{brace}", "*"}
+var hostileVals = []string{"", "v", "100%", "%s and %d", "50%% of %v", "a=b", "a=b=c", "http://h/p?x=1&y=2", "with space", " lead", "trail ", "q\"uote", "h#ash", "co:lon", "üñí", "=", "==", "k=v,k2=v2", "-dash", "{brace}", "*"}
 
 func genEnv(rng *rand.Rand, prefix string, n int) []string {
 	var out []string
@@ -817,9 +840,13 @@ func runMerge(c fw.Case) fw.Result {
 	if sp.Extends && len(sp.Files) == 3 && len(r.Findings) == 0 {
 		// chain: f2 extends f1 extends f0 must equal naming [f0, f1, f2]
 		// (absolute or unset-by-all working dirs only: see the working-dir rule)
-		rel01, _ := filepath.Rel(dir, files[0])
-		mid, _ := sim.WriteTemp(dir, "mid.yaml", sp.Files[1].yaml(rel01))
-		top, _ := sim.WriteTemp(dir, "top.yaml", sp.Files[2].yaml(filepath.Base(mid)))
+		// every file in its own directory, each referring to its base relative to itself
+		midDir := filepath.Join(dir, "m")
+		_ = os.MkdirAll(midDir, 0o755)
+		rel01, _ := filepath.Rel(midDir, files[0])
+		mid, _ := sim.WriteTemp(midDir, "mid.yaml", sp.Files[1].yaml(rel01))
+		relMid, _ := filepath.Rel(dir, mid)
+		top, _ := sim.WriteTemp(dir, "top.yaml", sp.Files[2].yaml(relMid))
 		ext, err := loadOnce([]string{top})
 		if err != nil {
 			r.Add("C15", "extends-load-error", "loading the three-level extends chain failed: %v", err)
